@@ -293,13 +293,13 @@ theorem cex_explains :
 theorem ctorBoxViols_sub (m : Mod) (it : Item) (h : it ∈ m.items) : ∀ v ∈ ctorBoxViols it, v ∈ violations m := by
   intro v hv
   unfold violations shapeViols
-  refine List.mem_append_right _ (List.mem_append_left _ (List.mem_append_left _ ?_))
+  refine List.mem_append_left _ (List.mem_append_right _ (List.mem_append_left _ (List.mem_append_left _ ?_)))
   exact List.mem_flatMap.mpr ⟨it, h, List.mem_append_right _ hv⟩
 
 theorem hdrParseViols_sub (m : Mod) (it : Item) (h : it ∈ m.items) : ∀ v ∈ hdrParseViols m it, v ∈ violations m := by
   intro v hv
   unfold violations shapeViols
-  refine List.mem_append_right _ (List.mem_append_left _ (List.mem_append_left _ ?_))
+  refine List.mem_append_left _ (List.mem_append_right _ (List.mem_append_left _ (List.mem_append_left _ ?_)))
   exact List.mem_flatMap.mpr ⟨it, h, List.mem_append_left _ (List.mem_append_right _ hv)⟩
 
 /-- in a well-formed module EVERY helper constructor of EVERY enum agrees with its variant about `Box` -/
@@ -367,6 +367,35 @@ def mHdrParse (enumHasFromStr : Bool) : Mod :=
 /-- an enum header member extracted with `value.parse()` whose enum has no `impl FromStr` (rustc: E0277) is a violation
 WITHOUT a class; primitives need nothing -/
 theorem header_parse_needs_fromstr_unlisted : judgeWF (mHdrParse false) = ⟨false, []⟩ ∧ judgeWF (mHdrParse true) = ⟨true, []⟩ := by decide
+
+/-- in a well-formed module every constant that an expression names is defined by one of its items -/
+theorem WF_consts_defined (m : Mod) (hw : WF m = true) (f n : Name) (ns : List Name) (hf : (f, ns) ∈ m.constMentions) (hn : n ∈ ns) :
+    ∃ i ∈ m.items, (i.kind = "const".toList ∨ i.kind = "static".toList) ∧ i.name = n := by
+  by_cases hd : n ∈ ((m.items.filter fun i => i.kind == "const".toList || i.kind == "static".toList).map (·.name))
+  · obtain ⟨i, hi, rfl⟩ := List.mem_map.mp hd
+    have := List.mem_filter.mp hi
+    refine ⟨i, this.1, ?_, rfl⟩
+    simpa using this.2
+  · exfalso
+    have hmem : Viol.undefinedConst n ∈ constViols m := by
+      unfold constViols
+      refine List.mem_map.mpr ⟨n, ?_, rfl⟩
+      refine List.mem_eraseDups.mpr (List.mem_filter.mpr ⟨List.mem_flatMap.mpr ⟨(f, ns), hf, hn⟩, ?_⟩)
+      simpa using hd
+    have hv : Viol.undefinedConst n ∈ violations m := by unfold violations; exact List.mem_append_right _ hmem
+    unfold WF at hw
+    simp only [List.isEmpty_iff] at hw
+    rw [hw] at hv
+    cases hv
+
+def mConst (defined : Name) : Mod :=
+  { mode := "server-mod".toList, schemas := [],
+    items := [{ file := "types".toList, kind := "const".toList, name := defined, vis := "pub".toList }],
+    imports := [], mentions := [], constMentions := [("types".toList, ["X_RATE_LIMIT_WINDOW".toList])] }
+
+/-- a header constant defined under one spelling and used under another (rustc: E0425) is a violation WITHOUT a class -/
+theorem undefined_const_unlisted :
+    judgeWF (mConst "X_RATELIMIT_WINDOW".toList) = ⟨false, []⟩ ∧ judgeWF (mConst "X_RATE_LIMIT_WINDOW".toList) = ⟨true, []⟩ := by decide
 
 def mOk : Mod :=
   { mode := "types".toList, schemas := ["B".toList],
